@@ -1017,6 +1017,21 @@ fn main() {
             let _ = db.flush_for_verif();
             println!("iter_during_flush={}", seen.lock().unwrap());
         }
+        // compact_range level begin|none end|none @level files... : inputs chosen by VersionSet::compact_range (max_file_size = 64)
+        "compact_range" => {
+            let level = num(a[1]) as usize;
+            let b = if a[2] == "none" { None } else { Some(key(a[2])) };
+            let e = if a[3] == "none" { None } else { Some(key(a[3])) };
+            let lv = levels(&a[4..]);
+            match v::compact_range_scenario(opts(), &lv, level, b, e) {
+                Some((i0, i1)) => {
+                    println!("picked=some");
+                    println!("inputs0={}", join(&i0));
+                    println!("inputs1={}", join(&i1));
+                }
+                None => println!("picked=none"),
+            }
+        }
         "vs_recover" => {
             // a database is created, written and closed; a fresh version set recovers from its files
             use raindb::WriteOptions;
